@@ -134,7 +134,7 @@ class RoundTrip(Harness):
         P.prove(list(out["taxa"]) == list(_labels(n)[0]), "taxa-labels-kept")
 
 
-OPS = ["select", "select_dup", "delete", "insert_arr", "insert_bv", "adjoin_arr", "adjoin_bv", "concat", "append", "remove", "incorp"]
+OPS = ["select", "select_dup", "select_neg", "delete", "delete_neg", "delete_mask", "insert_arr", "insert_bv", "adjoin_arr", "adjoin_bv", "concat", "append", "remove", "incorp"]
 
 
 class StructOps(Harness):
@@ -164,8 +164,17 @@ class StructOps(Harness):
         elif op == "select_dup":
             o = a.select_taxa([0] * (n - 1) + [n - 1])
             rows = [("R", 0)] * (n - 1) + [("R", n - 1)]
+        elif op == "select_neg":
+            o = a.select_taxa([-1, 0])
+            rows = [("R", n - 1), ("R", 0)]
         elif op == "delete":
             o = a.delete_taxa([0])
+            rows = [("R", i) for i in range(1, n)]
+        elif op == "delete_neg":
+            o = a.delete_taxa(-1)
+            rows = [("R", i) for i in range(n - 1)]
+        elif op == "delete_mask":
+            o = a.delete_taxa(numpy.array([True] + [False] * (n - 1)))
             rows = [("R", i) for i in range(1, n)]
         elif op == "insert_arr":
             o = a.insert_taxa(1, inp["S"].copy(), taxa=taxa2, taxa_grp=grp2)
@@ -252,8 +261,14 @@ class ScaledInPlace(Harness):
         tr = sm.transform(X.copy(), copy=False)
         back = sm.untransform(tr.copy(), copy=True)
         un = sm.unscale(inplace=False)
+        # a not-in-place rescale of another (un-standardised) matrix returns the standardised values and leaves the object alone
+        other = DenseScaledMatrix(mat=R.copy())
+        before = (other.location.copy(), other.scale.copy(), other.mat.copy())
+        resc = other.rescale(inplace=False)
+        after = (other.location, other.scale, other.mat)
+        un3 = other.unscale(inplace=False)
         un2 = sm.unscale(inplace=True)
-        return dict(back=back, un=un, un2=un2, loc=sm.location, scale=sm.scale)
+        return dict(back=back, un=un, un2=un2, loc=sm.location, scale=sm.scale, before=before, after=after, un3=un3, resc=resc)
 
     def check(self, P, inp, out):
         t = self.params["t"]
@@ -266,6 +281,12 @@ class ScaledInPlace(Harness):
                 P.prove(P.eq(cell(out["un2"], i, j), cell(inp["R"], i, j)), "in-place-unscale-reproduces-raw-values")
         for j in range(t):
             P.prove(And(P.eq(cell(out["loc"], j), 0.0), P.eq(cell(out["scale"], j), 1.0)), "in-place-unscale-resets-location-and-scale")
+        for k in range(3):
+            for x, y in zip(cells(out["before"][k]), cells(out["after"][k])):
+                P.prove(P.eq(x, y), "rescale(inplace=False)-leaves-the-object-unchanged", detail=["location", "scale", "mat"][k])
+        for i in range(self.params["n"]):
+            for j in range(t):
+                P.prove(P.eq(cell(out["un3"], i, j), cell(inp["R"], i, j)), "unscale-after-a-not-in-place-rescale-still-reproduces-raw-values")
 
 
 def obligations(tier):
